@@ -145,6 +145,8 @@ def judge(module, records, shards=None, timeout=900, xmx="3g", extra_constants="
         return [], 0, 0
     n = len(records)
     shards = shards or max(1, min(NCPU // 2, (n + 399) // 400))
+    # one record = one step of one behaviour, and TLC handles behaviours of at most 65 535 states
+    shards = max(shards, (n + 59999) // 60000)
     tmp = tempfile.mkdtemp(prefix="judge-")
     jobs, chunks = [], []
     for s in range(shards):
@@ -185,6 +187,7 @@ def judge_traces(module, behaviours, shards=None, timeout=900, xmx="3g"):
     if not behaviours:
         return [], 0, 0
     shards = shards or max(1, min(NCPU // 2, (len(behaviours) + 19) // 20))
+    shards = max(shards, (sum(len(b) for b in behaviours) + 49999) // 50000)      # TLC: behaviours of at most 65 535 states
     tmp = tempfile.mkdtemp(prefix="judge-")
     jobs, maps = [], []
     for sh in range(shards):
